@@ -97,10 +97,13 @@ THEOREMS = [
     'C03_pot_transform_out_of_range',
 ]
 TRUSTED = [
-    'hand-written model coq/C03/Vec.v + Model.v (modelled, tied by execution '
+    'hand-written model coq/C03/Vec.v + Model.v + Convert.v (modelled, tied by execution '
     'only); numpy matmul in transformation_quad modelled as a plain 4x4 '
     'product; x**2 modelled as x*x; math.cos/sin/sqrt vs the binary64 series '
     'of Base/Scalar.v absorbed by the 1e-9 tolerance',
+    'Spec coq/C03/SpecT4.v: reading of the TRIPOLI-4 SURF types (DESIGN '
+    'Appendix B) and of a transformation as p -> B (p - O) with an orthogonal '
+    'B (normalize_transform / adjust_matrix are not modelled here)',
     'Spec coq/C03/Spec.v: MCNP facet numbering and outward orientation as in '
     'DESIGN Appendix A; ELL with a positive last entry specified as MCNP '
     'behaves according to the source comment of MacroBodies.ell (b^2 = L^2 - '
